@@ -50,7 +50,7 @@ manifest = {
     "setup_cmd": "bin/setup",
     "hooks": {
         "guard": "verif",
-        "enable": "go build tag: engines are built with `go1.26.8 test -c -tags verif` (files named verif_hooks.go carry //go:build verif); some engines additionally use a build-time -overlay generated from the current /repo tree by tools/instrument (nothing of that is committed to /repo)",
+        "enable": "go build tag: engines are built with `go1.26.8 test -c -tags verif` (files named verif_hooks.go carry //go:build verif); engines additionally use a build-time `go build -overlay` generated from the current /repo tree by cmd/check/pin.go (pins of legal-but-random choices: reward map order, cached-vote race, unconfirmed-output map order; a small block gas limit for C38) and cmd/check/instrument.go (cooperative-scheduler instrumentation of protocol, protocol/casper, event, account, wallet) - nothing of that is written or committed to /repo",
         "baseline_off_cmd": md.BASELINE_OFF_CMD,
         "source_commits": hooks_commits,
         "add_only": True,
